@@ -15,8 +15,9 @@
 #endif
 
 #ifdef VF_ASAN
-#include <sanitizer/lsan_interface.h>
-#include <sanitizer/allocator_interface.h>
+// declared by hand: g++ does not ship <sanitizer/allocator_interface.h>
+extern "C" size_t __sanitizer_get_current_allocated_bytes();
+extern "C" int __lsan_do_recoverable_leak_check();
 #endif
 
 namespace vf {
